@@ -52,7 +52,16 @@ thread_local! {
     static LAST_PANIC: RefCell<Option<(String, String)>> = RefCell::new(None);
 }
 
-/// Installs a quiet panic hook that remembers (location, message) per thread.
+static VERBOSE_PANICS: std::sync::atomic::AtomicBool = std::sync::atomic::AtomicBool::new(false);
+
+/// In one-scenario (confirmation / replay) processes every panic is also written to stderr, so
+/// that the verdict can be classified even if the process aborts (panic while unwinding).
+pub fn set_verbose_panics(v: bool) {
+    VERBOSE_PANICS.store(v, Ordering::SeqCst);
+}
+
+/// Installs a quiet panic hook that remembers (location, message) of the FIRST panic since the
+/// last `take_last_panic` per thread (later ones are usually consequences: poisoned locks, drops).
 pub fn install_panic_hook() {
     std::panic::set_hook(Box::new(|info| {
         let loc = info
@@ -66,7 +75,16 @@ pub fn install_panic_hook() {
         } else {
             "<non-string panic>".into()
         };
-        LAST_PANIC.with(|p| *p.borrow_mut() = Some((loc, msg)));
+        if VERBOSE_PANICS.load(Ordering::SeqCst) {
+            eprintln!("PANIC at {}: {}", loc, msg.replace('\n', " "));
+        }
+        let _ = LAST_PANIC.try_with(|p| {
+            if let Ok(mut g) = p.try_borrow_mut() {
+                if g.is_none() {
+                    *g = Some((loc, msg));
+                }
+            }
+        });
     }));
 }
 
